@@ -330,4 +330,89 @@ set_option maxRecDepth 8000 in
 example : (stepOf f11Y f11F f11S3 1).log = [1] ∧ (stepOf f11Y f11F f11S3 1).recv = [⟨1, [[1000, 1001, 1002]], [[1000, 1001, 1002]]⟩] := by
   decide +kernel
 
+/-- **C18_rerun_runs.** As `C18_rerun_partial`, concluding outright that the task function is called, under the explicit
+side condition that FAIL-for-a-missing-node is impossible: the task's module and its *non-pattern* dependencies exist
+(a matched file exists by definition of matching), its pattern dependencies are still unresolved and it declares no
+`after` (the only other source of predecessors: `createDag_neighbours_conv`). -/
+theorem C18_rerun_runs (Y : YieldFn) (F : BodyFn) (ts : List PTask) (w : World) (s0 sm s' : Prov.Sess) (pre : List Nat)
+    (t : Nat) (post : List Nat) (h0 : initSess ts w = some s0) (h1 : loop Y F s0 pre = .ok sm)
+    (h2 : loop Y F sm (t :: post) = .ok s')
+    (tk : PTask) (hf : findTask sm.tasks t = some tk) (hng : tk.gen = false) (hfm : t ∉ sm.failMarks)
+    (π : Pat) (hsl : (⟨π, none⟩ : Slot) ∈ tk.pdeps) (n : Nat) (hn : n ∈ π.glob sm.w.fs)
+    (hch : hasChanged sm.w t (nv n) (lookup sm.w.fs n) = true)
+    (hre : (setupProvisional { sm with so := sm.so.take [tv t] } t).stop = false)
+    (hun : ∀ sl ∈ tk.pdeps, sl.res = none) (hafter : tk.after = [])
+    (hdeps : ∀ d ∈ tk.cnt.toList ++ tk.deps, (lookup sm.w.fs d).isSome = true)
+    (hsrc : (lookup sm.w.fs tk.src).isSome = true) :
+    (stepOf Y F sm t).log = sm.log ++ [t] := by
+  have hi : LInv ts sm ([] ++ pre) := loop_inv pre s0 sm [] (initSess_inv h0) h1
+  obtain ⟨hs, _, hl, _, _⟩ := loop_cons h2
+  have hg := hi.good hs
+  generalize hsa : ({ sm with so := sm.so.take [tv t] } : Prov.Sess) = sa at hre
+  have hga : sa.stop = false → Good sa (([] ++ pre).map tv ++ [tv t]) := fun _ => by
+    subst hsa
+    exact ⟨hg.dag, by obtain ⟨f, hf, hr⟩ := hg.reach; exact ⟨f, hf, Reach.ready 1 [tv t] hr hl⟩, hg.nodes⟩
+  have hfa : findTask sa.tasks t = some tk := by subst hsa; exact hf
+  have hfma : t ∉ sa.failMarks := by subst hsa; exact hfm
+  have hwa : sa.w = sm.w := by subst hsa; rfl
+  have hloga : sa.log = sm.log := by subst hsa; rfl
+  have hstep : stepOf Y F sm t = { protocol Y F sa t with so := (protocol Y F sa t).so.finish [tv t] } := by subst hsa; rfl
+  rw [hstep]
+  show (protocol Y F sa t).log = sm.log ++ [t]
+  rw [← hloga]
+  have hsp := setupProvisional_spec sa t tk hfa
+  have hg1 : Good (setupProvisional sa t) _ := (setupProvisional_moves sa t).good.2.2 _ hga hre
+  have hunr : unresolved tk.pdeps = true := by
+    unfold unresolved; exact List.any_eq_true.2 ⟨_, hsl, rfl⟩
+  have hdep : n ∈ (resolvedDeps sa.w.fs tk).allDeps := by
+    unfold resolvedDeps PTask.allDeps
+    simp only [hunr, if_true]
+    refine List.mem_append.2 (Or.inr (List.mem_flatMap.2 ⟨Slot.resolve sa.w.fs ⟨π, none⟩, List.mem_map.2 ⟨_, hsl, rfl⟩, ?_⟩))
+    rw [hwa]; exact hn
+  obtain ⟨m, hdag⟩ := hg1.dag
+  have hedge := (createDag_spec hdag _ (findTask_mem hsp.2)).2.1 n hdep
+  have hid1 := findTask_id hsp.2
+  rw [hid1] at hedge
+  have hpred : nv n ∈ (setupProvisional sa t).g.preds (tv t) := mem_preds.2 hedge
+  have hw1 : (setupProvisional sa t).w = sm.w := by rw [hsp.1.1, hwa]
+  have hch' : hasChanged (setupProvisional sa t).w t (nv n)
+      (stateOf (toProject (setupProvisional sa t).tasks) (setupProvisional sa t).w (nv n)) = true := by
+    rw [stateOf_nv, hw1]; exact hch
+  have hne1 := scanP_changed (toProject (setupProvisional sa t).tasks) (setupProvisional sa t).g (setupProvisional sa t).w
+    (provNodes (setupProvisional sa t).tasks) t (nv n) hpred hch' (neighbours (setupProvisional sa t).g t) false
+    (by unfold neighbours; simp [hpred])
+  -- no predecessor is missing
+  have hall := resolvedDeps_allDeps_exist sm.w.fs tk hun hdeps
+  have htasks := setupProvisional_tasks sa t tk hfa hunr
+  have hne2 := scanP_not_missing (toProject (setupProvisional sa t).tasks) (setupProvisional sa t).g (setupProvisional sa t).w
+    (provNodes (setupProvisional sa t).tasks) t (neighbours (setupProvisional sa t).g t) false (by
+      intro v _ hv
+      simp only [Bool.or_eq_true, List.contains_iff_mem, beq_iff_eq] at hv
+      rcases hv with hv | rfl
+      · rcases (createDag_neighbours_conv hdag t).1 v hv with ⟨u, hu, huid, d, hd, rfl⟩ | ⟨u, hu, huid, ha⟩
+        · have hu1 : u = resolvedDeps sa.w.fs tk := by
+            rw [htasks] at hu
+            rcases mem_setTask hu with h | h
+            · exact h
+            · exact absurd (huid.trans hid1.symm) h.2
+          rw [stateOf_nv, hw1]
+          rw [hu1, hwa] at hd
+          exact hall d hd
+        · have hu1 : u = resolvedDeps sa.w.fs tk := by
+            rw [htasks] at hu
+            rcases mem_setTask hu with h | h
+            · exact h
+            · exact absurd (huid.trans hid1.symm) h.2
+          exfalso
+          apply ha
+          rw [hu1]; unfold resolvedDeps; split <;> exact hafter
+      · rw [stateOf_tv _ hsp.2, hw1]
+        have : (resolvedDeps sa.w.fs tk).src = tk.src := by unfold resolvedDeps; split <;> rfl
+        rw [this]; exact hsrc)
+  have hscan := scan_cases _ hne1 hne2
+  have hrp := runPhases_changed Y F sa t tk hfa hng hfma hscan
+  unfold protocol
+  rw [(reportChain_frame _ t _).2.2.2.2.1]
+  exact hrp
+
 end Pytask
